@@ -20,8 +20,12 @@ def prevent_reentry(handler):
         if in_handler:
             return
         in_handler = True
-        handler(*args, **kwargs)
-        in_handler = False
+        try:
+            handler(*args, **kwargs)
+        finally:
+            # Must be reset even when configuration fails, otherwise every
+            # later mapper configuration in this process is skipped silently.
+            in_handler = False
     return check_reentry
 
 class Builder(object):
